@@ -55,7 +55,14 @@ def check(repo: Repo, rep: Report) -> None:
             rep.ob("E1-L0-state", S, f"{nb} L0 bindings of {S.qual}", True, nontrivial=nb > 0)
             n_ctor = 0
             for n in S.direct_nodes():
-                if isinstance(n, ast.Call) and isinstance(n.func, ast.Name) and n.func.id in RX_STATEFUL:
+                makes = isinstance(n, ast.Call) and isinstance(n.func, ast.Name) and n.func.id in RX_STATEFUL
+                if not makes and isinstance(n, ast.Call) and isinstance(n.func, ast.Name):
+                    # a call, made in the factory body, of a local helper that returns a freshly constructed stateful object
+                    h = S.resolve_local_def(n.func.id)
+                    if h is not None and h.is_func and any(isinstance(x, ast.Return) and isinstance(x.value, ast.Call) and isinstance(x.value.func, ast.Name)
+                                                           and x.value.func.id in RX_STATEFUL for x in h.direct_nodes()):
+                        makes = True
+                if makes:
                     n_ctor += 1
                     rep.ob("E1-L0-rx-object", S, short(n), False,
                            f"`{short(n)}` is constructed in the factory body of {S.qual}: every source the returned "
